@@ -94,6 +94,7 @@ type vbroker struct {
 	firedFaults   []string
 	protoErrs     []string
 	inject        map[int][]refPacket // packets to send right after CONNACK of connection c
+	onSilent      func(*vbConn)       // called (on a goroutine of its own) when a connection goes silent
 	syncN         int
 }
 
@@ -189,6 +190,9 @@ func (c *vbConn) clientWrote(mc *memConn, p []byte) error {
 		if f := b.fault(func(f *e4Fault) bool { return f.Conn == c.id && f.Kind == "goSilent" && f.Pkt == j }); f != nil {
 			c.silent = true
 			b.log.add(c.id, "SILENT", nil, "")
+			if b.onSilent != nil {
+				go b.onSilent(c)
+			}
 		}
 		if f := b.fault(func(f *e4Fault) bool { return f.Conn == c.id && f.Kind == "closeAfter" && f.Pkt == j }); f != nil {
 			// the packet was answered normally, then the broker closes the link
